@@ -112,6 +112,11 @@ def exec_generic(prop, desc):
 
 # ---- C03 -------------------------------------------------------------------
 def gen_c03(seed, tier):
+    if seed % 5 == 0:
+        desc, rng = gen_history(seed, tier, n_ops=(2, 5), allow=("run", "update", "update", "delete", "fresh"),
+                                genkw=STRESS_GENKW)
+        stress_stale_check(desc, rng)
+        return desc
     desc, rng = gen_history(seed, tier)
     return desc
 
@@ -124,24 +129,30 @@ def o_c03(rec, world, hist):
 
 
 # ---- C05 -------------------------------------------------------------------
+STRESS_GENKW = dict(p_src=0.5, p_stored=0.6, p_depsrc=0.05, p_fed=0.05, p_nested=0.1, p_lit=0.02,
+                    durs=(0.0,), max_fan_in=3, n_min=3, n_max=8)
+
+
+def stress_stale_check(desc, rng):
+    """Stress the (multi-threaded) stale check itself: >= 2 stale-check workers, instruction-level pre-emption inside
+    the transformation code and frequent switches in the run under test (the last operation); the history before it
+    only has to produce store states and runs under cheap schedules."""
+    for op in desc["ops"]:
+        if op["op"] == "run":
+            op["cfg"]["stale_workers"] = rng.choice([2, 3, 4])
+            op["cfg"]["max_workers"] = rng.choice([2, 3])
+            op["sched"] = dict(strategy=["rtb"], gran="sync", salt=desc["sched"]["salt"])
+    final = desc["ops"][-1]
+    final["sched"] = dict(strategy=rng.choice([["rw", 0.05, 0.5], ["rw", 0.1, 0.5], ["rw", 0.2, 0.5], ["rw", 0.3, 0.5],
+                                               ["pct", 30, 1500], ["pct", 10, 600, 1]]),
+                          gran="opcode+", salt=desc["sched"]["salt"])
+
+
 def gen_c05(seed, tier):
     if seed % 2 == 0:
-        # stress the (multi-threaded) stale check itself: several sources and stored fan-in nodes, source updates
-        # that make exactly one predecessor newer, >= 2 stale-check workers, instruction-level pre-emption inside
-        # the transformation code, frequent switches
-        desc, rng = gen_history(seed, tier, n_ops=(2, 5), allow=("run", "update", "update", "delete"),
-                                genkw=dict(p_src=0.5, p_stored=0.6, p_depsrc=0.05, p_fed=0.05, p_nested=0.1, p_lit=0.02,
-                                           durs=(0.0,), max_fan_in=3, n_min=3, n_max=8))
-        for op in desc["ops"]:
-            if op["op"] == "run":
-                op["cfg"]["stale_workers"] = rng.choice([2, 3, 4])
-                op["cfg"]["max_workers"] = rng.choice([2, 3])
-                # (the history before the run under test only has to produce store states: cheap schedules)
-                op["sched"] = dict(strategy=["rtb"], gran="sync", salt=desc["sched"]["salt"])
-        final = desc["ops"][-1]
-        final["sched"] = dict(strategy=rng.choice([["rw", 0.05, 0.5], ["rw", 0.1, 0.5], ["rw", 0.2, 0.5], ["rw", 0.3, 0.5],
-                                                   ["pct", 30, 1500], ["pct", 10, 600, 1]]),
-                              gran="opcode+", salt=desc["sched"]["salt"])
+        # several sources and stored fan-in nodes, source updates that make exactly one predecessor newer
+        desc, rng = gen_history(seed, tier, n_ops=(2, 5), allow=("run", "update", "update", "delete"), genkw=STRESS_GENKW)
+        stress_stale_check(desc, rng)
     else:
         desc, rng = gen_history(seed, tier)
     # the run under test and its immediate repetition are fault-free
@@ -158,6 +169,13 @@ def o_c05(rec, world, hist):
 
 # ---- C09 -------------------------------------------------------------------
 def gen_c09(seed, tier):
+    if seed % 3 == 0:
+        # a stored fan-in node one of whose inputs is rebuilt in this run must be rebuilt too - also when the stale
+        # check examines its inputs on different workers at the same moment
+        desc, rng = gen_history(seed, tier, n_ops=(2, 5), allow=("run", "update", "update", "delete"),
+                                genkw=dict(STRESS_GENKW, p_norm=0.8))
+        stress_stale_check(desc, rng)
+        return desc
     desc, rng = gen_history(seed, tier, genkw=dict(p_norm=0.8, p_stored=0.5, p_dep=0.35, durs=(0.0, 0.0, 1.0, 3.0)),
                             allow=("run", "fail", "update", "delete", "fresh"))
     for s in desc["world"]["stores"].values():
@@ -181,6 +199,17 @@ def gen_c14(seed, tier):
     desc["ops"][-1]["cfg"]["max_errors"] = 0
     desc["ops"][-1]["cfg"]["retry"] = None
     desc["ops"][-1]["cfg"]["transform"] = rng.choice([None, None, "extra-call", "wrap-output", "both"])
+    names = sorted(desc["world"]["stores"])
+    r = rng.random()
+    if names and r < 0.3:
+        # a store that cannot be examined: the real run fails in the stale check, so must the dry run
+        desc["ops"][-1]["faults"] = dict(stores=[dict(store=rng.choice(names), op="mtime",
+                                                      exc=rng.choice(["E1", "OSError", "TimeoutError", "FileNotFoundError"]))])
+    elif names and r < 0.45:
+        f = dict(store=rng.choice(names), op=rng.choice(["read", "write"]), exc=rng.choice(["E1", "OSError"]))
+        if f["op"] == "write":
+            f["when"] = rng.choice(["before", "after"])
+        desc["ops"][-1]["faults"] = dict(stores=[f])
     return desc
 
 
